@@ -11,9 +11,11 @@ import (
 	"crypto/cipher"
 	"fmt"
 	"testing"
+	"unsafe"
 
 	"pgregory.net/rapid"
 	"verif.local/ref/gen"
+	"verif.local/ref/guard"
 	"verif.local/ref/sm4ref"
 	"verif.local/ref/stats"
 	"verif.local/ref/vt"
@@ -141,8 +143,41 @@ func TestVerif_C05_Kernels(t *testing.T) {
 				if inplace {
 					dst = in
 				}
+				// one call in three places the round keys, the source or the destination ACROSS a 2^32-aligned address (ending at it,
+				// starting at it, or with 4..n-4 bytes on the far side): pointer arithmetic done in 32 bits goes wrong only there
+				rkp := &rkc
+				across := "none"
+				if gen.Uniform(t, "across4g", 0, 2) == 0 {
+					across = gen.Pick(t, "across4g-what", "rk", "rk", "src", "dst")
+					switch across {
+					case "rk":
+						before := 4 * gen.Uniform(t, "rk-before", 0, 32)
+						if m := guard.Across4G(128, before, nil); m != nil {
+							rkp = (*[32]uint32)(unsafe.Pointer(&m[0]))
+							*rkp = *rk
+						} else {
+							across = "unavailable"
+						}
+					case "src":
+						if m := guard.Across4G(n, gen.Uniform(t, "src-before", 0, n), in); m != nil && !inplace {
+							in = m
+						} else {
+							across = "unavailable"
+						}
+					case "dst":
+						if m := guard.Across4G(n, gen.Uniform(t, "dst-before", 0, n), nil); m != nil && !inplace {
+							dst = m
+						} else {
+							across = "unavailable"
+						}
+					}
+				}
+				rec.Tally("across-2^32-address:" + across)
 				plant()
-				k.f(&rkc, dst, in)
+				k.f(rkp, dst, in)
+				if *rkp != *rk {
+					vt.Fail(t, rec, "C05:kernel:"+k.name+":modifies-rk", "kernel %s modified the round keys", k.name)
+				}
 				want := wantE[base : base+n]
 				dn := "enc"
 				if dir == 1 {
